@@ -30,6 +30,10 @@ type e1Scenario struct {
 	PCTDepth   int     `json:"pct_depth"`
 	CondAny    bool    `json:"cond_signal_any"`
 	UnlockY    bool    `json:"unlock_yields,omitempty"`
+	// Prelude: the simulated process has run a build before (the REPL, watch mode): one that
+	// failed on a dependency cycle and left a slow target running, which finishes some time
+	// during the build under check. Nothing of that earlier build may count in this one.
+	Prelude int `json:"earlier_failed_build_leftover_yields,omitempty"`
 	Shape      string  `json:"shape"`
 }
 
@@ -283,6 +287,42 @@ func (sc *e1Scenario) cyclic(reach []bool) bool {
 	return dfs(0)
 }
 
+// e1Prelude is the earlier build of a long-lived process: p0 -> a -> [slow, a]. a finds the
+// cycle through itself; the runner returns while slow is still running.
+type e1Prelude struct {
+	sim  *simrt.Sim
+	slow int
+}
+
+type e1PreludeTarget struct {
+	w *e1Prelude
+	l string
+}
+
+func (w *e1Prelude) LoadTarget(l string) (Target, error) { return &e1PreludeTarget{w, l}, nil }
+
+func (t *e1PreludeTarget) Evaluate(engine Engine) error {
+	switch t.l {
+	case "p0":
+		for _, r := range engine.EvaluateTargets("a") {
+			if r.Error != nil {
+				return &e1Err{"dependency a of p0 failed"}
+			}
+		}
+	case "a":
+		for _, r := range engine.EvaluateTargets("slow", "a") {
+			if r.Error != nil {
+				return &e1Err{"dependency of a failed"}
+			}
+		}
+	case "slow":
+		for k := 0; k < t.w.slow; k++ {
+			t.w.sim.Yield("body", "slow (earlier build)")
+		}
+	}
+	return nil
+}
+
 func e1Exec(prop string) func(any, *simcheck.Ctx) *simcheck.Violation {
 	return func(scAny any, c *simcheck.Ctx) *simcheck.Violation {
 		sc := scAny.(*e1Scenario)
@@ -357,6 +397,10 @@ func e1Exec(prop string) func(any, *simcheck.Ctx) *simcheck.Violation {
 		var runErr error
 		returned := false
 		s.Run(func() {
+			if sc.Prelude > 0 {
+				Run(&e1Prelude{sim: s, slow: sc.Prelude}, "p0")
+				c.St.Count("builds_after_an_earlier_failed_build_of_the_same_process", 1)
+			}
 			runErr = Run(w, label(0))
 			returned = true
 		})
@@ -573,6 +617,9 @@ func e1Gen(r *rand.Rand, tier string) any {
 	sc.PCTDepth = 1 + r.IntN(3)
 	sc.CondAny = r.IntN(3) == 0
 	sc.UnlockY = r.IntN(3) == 0
+	if r.IntN(6) == 0 {
+		sc.Prelude = 1 + r.IntN(40)
+	}
 	return sc
 }
 
